@@ -3,30 +3,74 @@ import RreModel.C19.Model
 import RreModel.C19.Spec
 /-
 Driver for C19.
-  case := `<enabled:0|1> <max_threads> <min_rules_per_thread> <reps> <pseed> <facts> <rules>`
-     facts := `-` | `name=int,…`     rules := rule;rule;…   rule := `name/salience/enabled/cond/acts`
-     cond  := RPN joined by `_` : `L:<field>:<op>:<int>` | `R:<field>:<op>:<field>` | `A` | `O` | `N` | `X`      acts := `-` | `field=int,…`
-  obs  := `S:<run> P:<run> P:<run> …`
+  case := `<enabled:0|1> <max_threads> <min_rules_per_thread> <reps> <pseed> <facts> <rules> [d<k> (<facts> <rules>)*]`
+     facts := `-` | `name=V,…`     rules := rule;rule;…   rule := `name/salience/enabled/cond/acts`
+     V     := `<int>` Integer | `f<int>` Number (integral float) | `b0`/`b1` Boolean | `s<text>` String
+     cond  := RPN joined by `_` : `L:<field>:<op>:<int|f<int>|b0|b1>` | `R:<field>:<op>:<text>` (string literal / field
+              reference) | `A` | `O` | `N` | `X`      acts := `-` | `field=int,…`
+     d<k>  := debug_mode of the calls (bit 0: the configured engine's calls, bit 1: the sequential engine's call) — the
+              model has no debug mode: the flag must not change anything
+     every further `<facts> <rules>` pair is one more *stage*: another knowledge base (same name) and other facts run
+     through the SAME two engine objects, in order
+  obs  := stage ` ;; ` stage …      stage := `S:<run> P:<run> P:<run> …`
      run := `ok/<evaluated>/<fired>/<name=0|1,…>/<facts sorted>` | `err` | `panic` | `timeout`
-  drv_c19 model  : case        ↦ `S:<run> P:<run>`  (S = sequential path; P = the configured engine under a
+  drv_c19 model  : case        ↦ per stage `S:<run> P:<run>`  (S = sequential path; P = the configured engine under a
                                   pseudo-random interleaving derived from pseed — compared as a multiset)
-  drv_c19 oracle : case | obs  ↦ `ok <tags>` / `fail <run>:<clause>`   (Spec.runOk / Spec.sameAsRun on the observations)
+  drv_c19 oracle : case | obs  ↦ `ok <tags>` / `fail [K<stage>:]<run>:<clause>`   (Spec.runOk / Spec.sameAsRun on the
+                                  observations of every stage, each against the reference of ITS OWN rules and facts)
 -/
 open Proto C19
 
-def parseKV (s : String) : Option (List (String × Int)) :=
+def maxMag : Int := 9007199254740992   -- 2^53: `i as f64` is exact up to here
+
+def parseIntB (s : String) : Option Int :=
+  match s.toInt? with
+  | some i => if -maxMag ≤ i && i ≤ maxMag && !s.startsWith "+" then some i else none
+  | none => none
+
+/-- a string literal of the grammar: a decimal integer, or a word Rust's `f64` parser rejects -/
+def validText (s : String) : Bool :=
+  match strNum? s with
+  | some i => -maxMag ≤ i && i ≤ maxMag
+  | none =>
+    let l := s.toList.map Char.toLower
+    !(match l with | c :: _ => c.isDigit || c == '.' || c == '+' || c == '-' | [] => true)
+      && l != "inf".toList && l != "infinity".toList && l != "nan".toList
+
+/-- scalar literal without the string form (condition literals; strings are `R:` leaves) -/
+def parseScalar (v : String) : Option Val :=
+  if v = "b0" then some (.bool false) else if v = "b1" then some (.bool true)
+  else if v.startsWith "f" then (parseIntB (v.drop 1).toString).map .num
+  else (parseIntB v).map .int
+
+def parseVal (v : String) : Option Val :=
+  if v.startsWith "s" then
+    let t := (v.drop 1).toString
+    if validText t then some (.str t) else none
+  else parseScalar v
+
+def showVal : Val → String
+  | .int i => s!"{i}"
+  | .num i => s!"f{i}"
+  | .bool b => if b then "b1" else "b0"
+  | .str t => s!"s{t}"
+
+def parseKVwith (pv : String → Option α) (s : String) : Option (List (String × α)) :=
   if s = "-" then some [] else
     (s.splitOn ",").mapM fun kv =>
       match kv.splitOn "=" with
-      | [k, v] => v.toInt?.map fun i => (k, i)
+      | [k, v] => (pv v).map fun i => (k, i)
       | _ => none
 
-def showKV (kv : List (String × Int)) : String :=
-  if kv.isEmpty then "-" else ",".intercalate (kv.map fun (k, v) => s!"{k}={v}")
+def parseKV (s : String) : Option (List (String × Int)) := parseKVwith String.toInt? s
+def parseFacts (s : String) : Option Facts := parseKVwith parseVal s
+
+def showKV (kv : Facts) : String :=
+  if kv.isEmpty then "-" else ",".intercalate (kv.map fun (k, v) => s!"{k}={showVal v}")
 
 /-- the harness prints the facts as sorted `k=v` strings; the model's facts are put in the same order -/
-def canonFacts (kv : List (String × Int)) : List (String × Int) :=
-  kv.mergeSort (fun a b => !(s!"{b.1}={b.2}" < s!"{a.1}={a.2}"))
+def canonFacts (kv : Facts) : Facts :=
+  kv.mergeSort (fun a b => !(s!"{b.1}={showVal b.2}" < s!"{a.1}={showVal a.2}"))
 
 def parseOp (s : String) : Option Op :=
   match s with
@@ -45,12 +89,12 @@ def parseCond (s : String) : Option Cond :=
       else if t = "N" then match st with | c :: st' => go rest (.not c :: st') | _ => none
       else match t.splitOn ":" with
         | ["L", f, o, v] =>
-          match parseOp o, v.toInt? with
+          match parseOp o, parseScalar v with
           | some o, some v => go rest (.leaf f o v :: st)
           | _, _ => none
         | ["R", f, o, g] =>
           match parseOp o with
-          | some o => go rest (.leafRef f o g :: st)
+          | some o => if validText g then go rest (.leafRef f o g :: st) else none
           | none => none
         | _ => none
   go (s.splitOn "_") []
@@ -65,21 +109,45 @@ def parseRule (s : String) : Option CRule :=
            actions := acts.map fun (k, v) => Action.set k v }
   | _ => none
 
-structure Case where
-  cfg : Config
-  pseed : Nat
+structure Stage where
   facts : Facts
   rules : List CRule
 
+structure Case where
+  cfg : Config
+  pseed : Nat
+  debug : Nat
+  stages : List Stage
+
+def parseStage (facts rules : String) : Option Stage := do
+  let facts ← parseFacts facts
+  let rules ← if rules = "-" then some [] else (rules.splitOn ";").mapM parseRule
+  pure { facts := canonFacts facts, rules := rules }
+
+def parseStages : List String → Option (List Stage)
+  | [] => some []
+  | f :: r :: rest => do
+    let st ← parseStage f r
+    let more ← parseStages rest
+    pure (st :: more)
+  | _ => none
+
 def parseCase (line : String) : Option Case :=
   match tokens line with
-  | [en, mt, mr, _reps, pseed, facts, rules] => do
+  | en :: mt :: mr :: _reps :: pseed :: facts :: rules :: rest => do
     let mt ← mt.toNat?
     let mr ← mr.toNat?
     let pseed ← pseed.toNat?
-    let facts ← parseKV facts
-    let rules ← if rules = "-" then some [] else (rules.splitOn ";").mapM parseRule
-    pure { cfg := ⟨en = "1", mt, mr⟩, pseed := pseed, facts := canonFacts facts, rules := rules }
+    let st0 ← parseStage facts rules
+    let (dbg, more) ← match rest with
+      | [] => some (0, [])
+      | d :: more =>
+        if d.startsWith "d" then
+          match (d.drop 1).toString.toNat? with
+          | some k => if k < 4 then (parseStages more).map fun m => (k, m) else none
+          | none => none
+        else none
+    pure { cfg := ⟨en = "1", mt, mr⟩, pseed := pseed, debug := dbg, stages := st0 :: more }
   | _ => none
 
 def showPairs (ps : List (String × Bool)) : String :=
@@ -106,7 +174,7 @@ def parseRun (s : String) : Option RunObs :=
     let ev ← ev.toNat?
     let fi ← fi.toNat?
     let cs ← parsePairs cs
-    let fs ← parseKV fs
+    let fs ← parseFacts fs
     pure { evaluated := ev, fired := fi, ctxs := cs, facts := fs }
   | _ => none
 
@@ -126,9 +194,11 @@ def modelLine (line : String) : String :=
   match parseCase line with
   | none => "bad-case"
   | some c =>
-    let s := executeParallel coreSem { c.cfg with enabled := false } c.rules c.facts (fun _ => [])
-    let p := executeParallel coreSem c.cfg c.rules c.facts (schedOf c.pseed)
-    s!"S:{showRun s} P:{showRun p}"
+    -- the engines keep nothing between calls: every stage is the same function of its own rules and facts
+    " ;; ".intercalate <| c.stages.map fun st =>
+      let s := executeParallel coreSem { c.cfg with enabled := false } st.rules st.facts (fun _ => [])
+      let p := executeParallel coreSem c.cfg st.rules st.facts (schedOf c.pseed)
+      s!"S:{showRun s} P:{showRun p}"
 
 /-- diagnostic only (labels a `structureOk` failure): every level's segment is a permutation of that level -/
 def levelsOnlyOk (rules : List CRule) (f : Facts) : List Int → List (String × Bool) → Bool
@@ -137,8 +207,112 @@ def levelsOnlyOk (rules : List CRule) (f : Facts) : List Int → List (String ×
     let e := (group rules s).map (pairOf f)
     (got.take e.length).isPerm e && levelsOnlyOk rules f ss (got.drop e.length)
 
-def anyLevel (c : Case) (p : List CRule → Bool) : Bool :=
-  (levelKeys c.rules).any fun s => p (group c.rules s)
+def anyLevel (rules : List CRule) (p : List CRule → Bool) : Bool :=
+  (levelKeys rules).any fun s => p (group rules s)
+
+def condTyped : Cond → Bool
+  | .leaf _ _ (.int _) => false
+  | .leaf _ _ _ => true
+  | .leafRef _ _ _ => false
+  | .and l r => condTyped l || condTyped r
+  | .or l r => condTyped l || condTyped r
+  | .not c => condTyped c
+  | .xnot l r => condTyped l || condTyped r
+
+/-- the printed form of a single-leaf rule's comparison (`Value::to_string` of the constant): two rules with the
+same print but different constants are "look-alikes" -/
+def leafPrint (r : CRule) : Option (String × Val) :=
+  let pr : Val → String
+    | .int i => s!"{i}" | .num i => s!"{i}" | .str t => t | .bool b => if b then "true" else "false"
+  match r.cond with
+  | .leaf f o v => some (s!"{f} {repr o} {pr v}", v)
+  | .leafRef f o g => some (s!"{f} {repr o} {g}", .str g)
+  | _ => none
+
+def hasLookalike (l : List CRule) : Bool :=
+  let ps := l.filterMap leafPrint
+  ps.any fun a => ps.any fun b => a.1 == b.1 && a.2 != b.2
+
+/-- one stage: the S run and the P runs of one knowledge base, against the reference of its own rules and facts -/
+def checkStage (cfg : Config) (st : Stage) (runs : List String) : Except String (List String) :=
+  let rules := st.rules
+  let facts := st.facts
+  match runs with
+  | [] => .error "bad-input"
+  | sTok :: pToks =>
+    if !sTok.startsWith "S:" || pToks.any (fun t => !t.startsWith "P:") then .error "bad-input" else
+    let seqCfg : Config := { cfg with enabled := false }
+    match parseRun (sTok.drop 2).toString with
+    | none => .error s!"fail S:notok({(sTok.drop 2).toString.takeWhile (· != '/')})"
+    | some sObs =>
+      if !countsOk sObs then .error "fail S:counts"
+      else if !sameAsRef (refPairs rules facts) facts sObs then .error "fail S:sameAsRef"
+      else if !structureOk seqCfg rules facts (levelKeys rules) sObs.ctxs then .error "fail S:structure"
+      else
+        -- does the model say the configured call errors (max_threads = 0 on a parallelised level)?
+        let ident := executeParallel coreSem cfg rules facts (fun _ => [])
+        let identCtxs := match ident with | .ok r => r.obs.ctxs | .error _ => []
+        let expectPanic := match ident with | .ok _ => false | .error _ => true
+        let rec check (i : Nat) (ps : List String) (reordered : Bool) : Except String Bool :=
+          match ps with
+          | [] => .ok reordered
+          | t :: rest =>
+            let body := (t.drop 2).toString
+            if expectPanic then
+              if body = "panic" then check (i + 1) rest reordered else .error s!"fail P{i}:expected-panic"
+            else
+              match parseRun body with
+              | none => .error s!"fail P{i}:notok({body.takeWhile (· != '/')})"
+              | some o =>
+                if !countsOk o then .error s!"fail P{i}:counts"
+                else if !sameAsRun sObs o then .error s!"fail P{i}:vsSequentialRun"
+                else if !sameAsRef (refPairs rules facts) facts o then .error s!"fail P{i}:sameAsRef"
+                else if !structureOk cfg rules facts (levelKeys rules) o.ctxs then
+                  -- diagnose: are at least the level segments in place (then only the chunk layout differs)?
+                  if levelsOnlyOk rules facts (levelKeys rules) o.ctxs then .error s!"fail P{i}:chunk-structure"
+                  else .error s!"fail P{i}:level-order"
+                else check (i + 1) rest (reordered || o.ctxs != identCtxs)
+        match check 0 pToks false with
+        | .error e => .error e
+        | .ok reordered =>
+          let par := anyLevel rules fun l => shouldParallelize cfg l.length
+          let multi := cfg.maxThreads != 0 && anyLevel rules fun l =>
+            shouldParallelize cfg l.length && (chunks (divCeil l.length cfg.maxThreads) l).length ≥ 2
+          let shortLast := cfg.maxThreads != 0 && anyLevel rules fun l =>
+            shouldParallelize cfg l.length && l.length % (divCeil l.length cfg.maxThreads) != 0
+          let fewer := cfg.maxThreads != 0 && anyLevel rules fun l =>
+            shouldParallelize cfg l.length && l.length < cfg.maxThreads
+          -- two single-leaf rules whose comparisons print alike but differ in type share a worker's chunk
+          let lookalike := cfg.maxThreads != 0 && anyLevel rules fun l =>
+            shouldParallelize cfg l.length && (chunks (divCeil l.length cfg.maxThreads) l).any hasLookalike
+          let hasFired := sObs.ctxs.any (·.2)
+          let hasUnfired := sObs.ctxs.any (fun p => !p.2)
+          let firedWithActs := rules.any fun r => r.enabled && r.cond.eval facts && !r.actions.isEmpty
+          let typed := rules.any (fun r => condTyped r.cond) ||
+            facts.any (fun p => match p.2 with | .int _ => false | _ => true)
+          .ok <|
+            (if par then ["par"] else ["seq_only"])
+            ++ (if multi then ["multi_chunk"] else [])
+            ++ (if shortLast then ["short_last_chunk"] else [])
+            ++ (if fewer then ["n_lt_threads"] else [])
+            ++ (if reordered then ["reordered"] else [])
+            ++ (if (levelKeys rules).length ≥ 2 then ["levels>1"] else [])
+            ++ (if anyLevel rules (fun l => l.length ≥ 2) then ["ties"] else [])
+            ++ (if rules.any (fun r => !r.enabled) then ["disabled"] else [])
+            ++ (if hasFired then ["fired"] else []) ++ (if hasUnfired then ["unfired"] else [])
+            ++ (if firedWithActs then ["fired_with_assignments"] else [])
+            ++ (if expectPanic then ["panic_max_threads_0"] else [])
+            ++ (if typed then ["typed_values"] else [])
+            ++ (if lookalike then ["lookalike_constants_in_one_chunk"] else [])
+            ++ (if multi && hasFired && hasUnfired then ["nontrivial"] else [])
+
+/-- split the observation tokens at the `;;` stage separators -/
+def splitStages (toks : List String) : List (List String) :=
+  let rec go (ts : List String) (cur : List String) (acc : List (List String)) : List (List String) :=
+    match ts with
+    | [] => (cur.reverse :: acc).reverse
+    | t :: rest => if t = ";;" then go rest [] (cur.reverse :: acc) else go rest (t :: cur) acc
+  go toks [] []
 
 def oracleLine (line : String) : String :=
   match line.splitOn " | " with
@@ -146,70 +320,31 @@ def oracleLine (line : String) : String :=
     match parseCase cs with
     | none => "bad-input"
     | some c =>
-      let runs := tokens os
-      match runs with
-      | [] => "bad-input"
-      | sTok :: pToks =>
-        if !sTok.startsWith "S:" || pToks.any (fun t => !t.startsWith "P:") then "bad-input" else
-        let seqCfg : Config := { c.cfg with enabled := false }
-        match parseRun (sTok.drop 2).toString with
-        | none => s!"fail S:notok({(sTok.drop 2).toString.takeWhile (· != '/')})"
-        | some sObs =>
-          if !countsOk sObs then "fail S:counts"
-          else if !sameAsRef (refPairs c.rules c.facts) c.facts sObs then "fail S:sameAsRef"
-          else if !structureOk seqCfg c.rules c.facts (levelKeys c.rules) sObs.ctxs then "fail S:structure"
-          else
-            -- does the model say the configured call errors (max_threads = 0 on a parallelised level)?
-            let ident := executeParallel coreSem c.cfg c.rules c.facts (fun _ => [])
-            let identCtxs := match ident with | .ok r => r.obs.ctxs | .error _ => []
-            let expectPanic := match ident with | .ok _ => false | .error _ => true
-            let rec check (i : Nat) (ps : List String) (reordered : Bool) : Except String Bool :=
-              match ps with
-              | [] => .ok reordered
-              | t :: rest =>
-                let body := (t.drop 2).toString
-                if expectPanic then
-                  if body = "panic" then check (i + 1) rest reordered else .error s!"fail P{i}:expected-panic"
-                else
-                  match parseRun body with
-                  | none => .error s!"fail P{i}:notok({body.takeWhile (· != '/')})"
-                  | some o =>
-                    if !countsOk o then .error s!"fail P{i}:counts"
-                    else if !sameAsRun sObs o then .error s!"fail P{i}:vsSequentialRun"
-                    else if !sameAsRef (refPairs c.rules c.facts) c.facts o then .error s!"fail P{i}:sameAsRef"
-                    else if !structureOk c.cfg c.rules c.facts (levelKeys c.rules) o.ctxs then
-                      -- diagnose: are at least the level segments in place (then only the chunk layout differs)?
-                      if levelsOnlyOk c.rules c.facts (levelKeys c.rules) o.ctxs then .error s!"fail P{i}:chunk-structure"
-                      else .error s!"fail P{i}:level-order"
-                    else check (i + 1) rest (reordered || o.ctxs != identCtxs)
-            match check 0 pToks false with
-            | .error e => e
-            | .ok reordered =>
-              let par := anyLevel c fun l => shouldParallelize c.cfg l.length
-              let multi := c.cfg.maxThreads != 0 && anyLevel c fun l =>
-                shouldParallelize c.cfg l.length && (chunks (divCeil l.length c.cfg.maxThreads) l).length ≥ 2
-              let shortLast := c.cfg.maxThreads != 0 && anyLevel c fun l =>
-                shouldParallelize c.cfg l.length && l.length % (divCeil l.length c.cfg.maxThreads) != 0
-              let fewer := c.cfg.maxThreads != 0 && anyLevel c fun l =>
-                shouldParallelize c.cfg l.length && l.length < c.cfg.maxThreads
-              let hasFired := sObs.ctxs.any (·.2)
-              let hasUnfired := sObs.ctxs.any (fun p => !p.2)
-              let firedWithActs := c.rules.any fun r => r.enabled && r.cond.eval c.facts && !r.actions.isEmpty
-              let tags :=
-                (if par then ["par"] else ["seq_only"])
-                ++ (if multi then ["multi_chunk"] else [])
-                ++ (if shortLast then ["short_last_chunk"] else [])
-                ++ (if fewer then ["n_lt_threads"] else [])
-                ++ (if reordered then ["reordered"] else [])
-                ++ (if (levelKeys c.rules).length ≥ 2 then ["levels>1"] else [])
-                ++ (if anyLevel c (fun l => l.length ≥ 2) then ["ties"] else [])
-                ++ (if c.rules.any (fun r => !r.enabled) then ["disabled"] else [])
-                ++ (if hasFired then ["fired"] else []) ++ (if hasUnfired then ["unfired"] else [])
-                ++ (if firedWithActs then ["fired_with_assignments"] else [])
-                ++ (if expectPanic then ["panic_max_threads_0"] else [])
-                ++ (if !c.cfg.enabled then ["parallelism_off"] else [])
-                ++ (if multi && hasFired && hasUnfired then ["nontrivial"] else [])
-              joinSp ("ok" :: tags)
+      let groups := splitStages (tokens os)
+      if groups.length != c.stages.length then "bad-input" else
+      let rec go (k : Nat) (sts : List Stage) (gs : List (List String)) (tags : List String) : String :=
+        match sts, gs with
+        | st :: sts', g :: gs' =>
+          match checkStage c.cfg st g with
+          | .error e =>
+            -- a failure in a later stage (an engine that has run another knowledge base before) is marked `K<stage>:`
+            if k = 0 || !e.startsWith "fail " then e else s!"fail K{k}:{(e.drop 5).toString}"
+          | .ok ts => go (k + 1) sts' gs' (tags ++ ts.filter (fun t => !tags.contains t))
+        | _, _ =>
+          let rulesDiffer := match c.stages with
+            | s0 :: rest => rest.any fun s => s.rules != s0.rules
+            | [] => false
+          let sameCount := match c.stages with
+            | s0 :: rest => rest.any fun s => s.rules != s0.rules && s.rules.length == s0.rules.length
+            | [] => false
+          joinSp ("ok" :: tags
+            ++ (if !c.cfg.enabled then ["parallelism_off"] else [])
+            ++ (if c.debug % 2 = 1 then ["debug_mode"] else [])
+            ++ (if c.debug ≥ 2 then ["debug_mode_seq"] else [])
+            ++ (if c.stages.length ≥ 2 then ["engine_reused_across_kbs"] else [])
+            ++ (if rulesDiffer then ["reused_with_different_rules"] else [])
+            ++ (if sameCount then ["reused_same_name_same_version"] else []))
+      go 0 c.stages groups []
   | _ => "bad-input"
 
 def main (args : List String) : IO Unit :=
